@@ -85,6 +85,7 @@ type opMeta struct {
 	tract  int
 	gen    int
 	buf    []byte
+	bad    []int
 }
 
 // Weights of the generic actions.
@@ -254,7 +255,7 @@ func (d *Driver) StartReplicate(blob, tract int, bad []int) *Event {
 		ids = append(ids, core.TractserverID(x))
 	}
 	tid := d.tractID(blob, tract)
-	m := &opMeta{kind: EvStartRepl, blob: blob, tract: tract, gen: cur.Gen}
+	m := &opMeta{kind: EvStartRepl, blob: blob, tract: tract, gen: cur.Gen, bad: bad}
 	op := d.Cl.S.Go("replicate", m, func() interface{} {
 		return OpResult{Kind: EvStartRepl, Err: cur.ReplicateTract(tid, ids)}
 	})
@@ -280,6 +281,72 @@ func (d *Driver) StartThirdPartyFix(blob, tract, version, badTS int) *Event {
 
 // ---- scheduling decisions ----
 
+// pinPlacement restricts the placement candidates right before a step that may run allocateTS
+// (ExtendBlob at the curator; the reply of a re-replication's last SetVersion) to exactly as many
+// servers as needed, chosen by the case's generator.
+func (d *Driver) pinPlacement(r *RPC) {
+	pick := func(from []int, n int) map[int]bool {
+		m := map[int]bool{}
+		perm := d.R.Perm(len(from))
+		for _, i := range perm {
+			if len(m) < n {
+				m[from[i]] = true
+			}
+		}
+		return m
+	}
+	switch {
+	case r.Kind == KExtendBlob:
+		inc := d.Cl.Cur
+		bi := d.blobIdx(r.Blob)
+		if bi < 0 {
+			return
+		}
+		var known []int
+		for i := 1; i < len(d.Cl.TS); i++ {
+			if inc.KnowsTS(core.TractserverID(i)) {
+				known = append(known, i)
+			}
+		}
+		if len(known) > d.Blobs[bi].Repl {
+			d.Cl.SetEligible(inc, pick(known, d.Blobs[bi].Repl))
+		} else {
+			d.Cl.SetEligible(inc, nil)
+		}
+	case r.Kind == KSetVersion && r.Client < 0:
+		inc := d.Cl.Incarnation(r.Gen)
+		bi := d.blobIdx(r.Blob)
+		if inc == nil || bi < 0 {
+			return
+		}
+		need := 0
+		for _, t := range d.tasks {
+			if m, ok := t.Meta.(*opMeta); ok && m != nil && m.kind == EvStartRepl && m.gen == r.Gen && m.blob == bi && m.tract == r.Tract {
+				need = len(m.bad)
+				break // the earliest one holds the tract lock, a later one waits for it
+			}
+		}
+		if need == 0 {
+			return
+		}
+		isHost := map[int]bool{}
+		for _, h := range d.Cl.D.Tract(d.tractID(bi, r.Tract)).Hosts {
+			isHost[int(h)] = true
+		}
+		var non []int
+		for i := 1; i < len(d.Cl.TS); i++ {
+			if inc.KnowsTS(core.TractserverID(i)) && !isHost[i] {
+				non = append(non, i)
+			}
+		}
+		if len(non) > need {
+			d.Cl.SetEligible(inc, pick(non, need))
+		} else {
+			d.Cl.SetEligible(inc, nil)
+		}
+	}
+}
+
 func (d *Driver) Step(r *RPC, mode int) *Event {
 	// among calls with identical descriptors always take the oldest (the model does the same)
 	for _, x := range d.Cl.S.Pending() {
@@ -294,6 +361,7 @@ func (d *Driver) Step(r *RPC, mode int) *Event {
 	if mode != ModeDeliver {
 		d.nFaults++
 	}
+	d.pinPlacement(r)
 	d.Cl.S.Start(r, mode)
 	return d.after(ev)
 }
@@ -305,6 +373,7 @@ func (d *Driver) Reply(r *RPC, lose bool) *Event {
 		}
 	}
 	ev := &Event{Code: EvReply, RPC: r, Args: []int64{b2i(lose)}}
+	d.pinPlacement(r)
 	d.Cl.S.Reply(r, lose)
 	return d.after(ev)
 }
@@ -391,6 +460,7 @@ func (d *Driver) after(ev *Event) *Event {
 			for _, h := range d.Cl.D.Tract(d.tractID(bi, ev.RPC.Tract)).Hosts {
 				ev.DurAfter = append(ev.DurAfter, int64(h))
 			}
+			sort.Slice(ev.DurAfter, func(i, j int) bool { return ev.DurAfter[i] < ev.DurAfter[j] })
 		}
 	}
 	// frames
@@ -867,6 +937,9 @@ func (d *Driver) Quiesce() bool {
 		progressed := false
 		for _, r := range pend {
 			if r.State == StParked {
+				if r.Kind == KFixVersion && d.lockLoad(d.blobIdx(r.Blob), r.Tract) >= 2 {
+					continue // never a second waiter on a tract lock
+				}
 				d.Step(r, ModeDeliver)
 				progressed = true
 				break
